@@ -86,6 +86,7 @@ theorem expandCases_ok (join : List String → String) (s : Suite) (c : Case) (p
     split at h
     · injection h
     rename_i h5
+    simp only at h
     split at h
     · injection h
     rename_i h6
@@ -620,4 +621,55 @@ theorem pathJoin_cons_empty (l : List String) : pathJoin ("" :: l) = pathJoin l 
   unfold pathJoin
   simp
 
+/-! ### gRPC reference peers -/
+
+theorem grpcApplicable_iff (cl sv : Bool) (q : Perm) :
+    grpcApplicable cl sv q = true ↔ GrpcPeerApplicable cl sv q := by
+  unfold grpcApplicable GrpcPeerApplicable
+  cases cl <;> cases sv <;> cases hp : q.p <;> cases hr : q.rawRequest <;> cases hs : q.rawResponse <;>
+    cases hc : q.serverCert <;> simp [and_assoc]
+
+theorem filterGRPC_names (cl sv : Bool) (h : cl = true ∨ sv = true) (perms : List Perm) :
+    (filterGRPC cl sv perms).map (·.fullName) = markedNames cl sv perms := by
+  unfold filterGRPC markedNames
+  have hn : (!cl && !sv) = false := by rcases h with h | h <;> simp [h]
+  rw [hn]
+  simp only [Bool.false_eq_true, if_false, List.map_map]
+  have hf : (perms.filter (grpcApplicable cl sv)) = perms.filter (fun q => decide (GrpcPeerApplicable cl sv q)) := by
+    apply List.filter_congr
+    intro q _
+    by_cases hq : GrpcPeerApplicable cl sv q
+    · simp [hq, (grpcApplicable_iff cl sv q).2 hq]
+    · have : grpcApplicable cl sv q = false := by
+        cases hx : grpcApplicable cl sv q
+        · rfl
+        · exact absurd ((grpcApplicable_iff cl sv q).1 hx) hq
+      simp [hq, this]
+  rw [hf]
+  rfl
+
+theorem allPermutations_names (cl sv : Bool) (perms : List Perm) :
+    (allPermutations cl sv perms).map (·.fullName) = specAllNames cl sv perms := by
+  unfold allPermutations specAllNames
+  simp only [List.map_append]
+  cases cl <;> cases sv <;> simp [filterGRPC_names]
+
+
+theorem only_iff' {α} [DecidableEq α] (l : List α) (x : α) :
+    only l x = true ↔ (l ≠ [] ∧ ∀ y ∈ l, y = x) := by
+  unfold only
+  cases l <;> simp
+
+theorem misconfigured_iff (s : Suite) : misconfigured s = true ↔ Misconfigured s := by
+  unfold misconfigured Misconfigured
+  have h := only_iff' s.protocols Proto.connect
+  by_cases ho : only s.protocols Proto.connect = true
+  · have h' := h.1 ho
+    cases s.reliesOnCerts <;> cases s.reliesOnTls <;> cases s.reliesOnGet <;> cases hc : s.cvm <;> simp [ho, h'.1] <;> exact h'.2
+  · have ho' : only s.protocols Proto.connect = false := by
+      cases hx : only s.protocols Proto.connect
+      · rfl
+      · exact absurd hx ho
+    have h' : ¬ (s.protocols ≠ [] ∧ ∀ y ∈ s.protocols, y = Proto.connect) := fun hx => ho (h.2 hx)
+    cases s.reliesOnCerts <;> cases s.reliesOnTls <;> cases s.reliesOnGet <;> cases hc : s.cvm <;> simp [ho', h']
 end ConfModel.Library
